@@ -138,6 +138,7 @@ let run (cases : case list) =
           os := s';
           let cl = int_of_nat cl in
           if cl = 99 then oracle_live := false
+          else if cl = 17 then report_oracle ci i "17" op ("obs=[" ^ impl ^ "]")    (* soft clause: the ledger keeps judging *)
           else if cl <> 0 then begin report_oracle ci i (string_of_int cl) op ("obs=[" ^ impl ^ "]"); oracle_live := false end
         end
       end) c.steps) cases
